@@ -230,6 +230,7 @@ func (vc *VC) evalInv(li *loopInfo, inv *loopInv, heap *Heap, over map[*ssa.Phi]
 	env := vc.entryEnv()
 	env.heap = heap
 	env.local = func(name string) *Val { return vc.localAt(li, name, over, heap) }
+	env.localFirst = true
 	defer func() {
 		if r := recover(); r != nil {
 			if sf, ok := r.(specFail); ok {
